@@ -1,0 +1,251 @@
+//go:build verif
+// +build verif
+
+// Verification hooks (build tag "verif"): virtual clock, named hook points,
+// read-only inspection helpers. Nothing here is compiled without the tag.
+
+package cache
+
+import (
+	"fmt"
+	"io/ioutil"
+	"math/rand"
+	"os"
+	"strconv"
+	"strings"
+	"sync"
+	"sync/atomic"
+	"syscall"
+	"time"
+
+	"github.com/golang/groupcache/lru"
+)
+
+var (
+	verifClockFn atomic.Value // func() int64
+	verifPointFn atomic.Value // func(string)
+)
+
+type verifClockHolder struct{ fn func() int64 }
+type verifPointHolder struct{ fn func(string) }
+
+// VerifSetClock installs (or with nil removes) a virtual clock
+func VerifSetClock(fn func() int64) {
+	verifClockFn.Store(verifClockHolder{fn})
+}
+
+// VerifSetPointFunc installs (or with nil removes) the hook point callback
+func VerifSetPointFunc(fn func(name string)) {
+	verifPointFn.Store(verifPointHolder{fn})
+}
+
+func verifNow() (int64, bool) {
+	v, _ := verifClockFn.Load().(verifClockHolder)
+	if v.fn == nil {
+		return 0, false
+	}
+	return v.fn(), true
+}
+
+// VerifNow returns the time the cache logic sees
+func VerifNow() int64 {
+	return nowUnix()
+}
+
+func verifPoint(name string) {
+	v, _ := verifPointFn.Load().(verifPointHolder)
+	if v.fn != nil {
+		v.fn(name)
+	}
+}
+
+// VerifPoint lets other pike packages reach the same hook point callback
+func VerifPoint(name string) {
+	verifPoint(name)
+}
+
+// VerifShardStat resident entries of each shard
+type VerifShardStat struct {
+	Zones    int
+	LRUSize  int
+	Resident []int
+	Total    int
+}
+
+// VerifStats counts the resident entries, each shard under its own lock
+func (d *dispatcher) VerifStats() VerifShardStat {
+	st := VerifShardStat{
+		Zones:    int(d.zoneSize),
+		Resident: make([]int, len(d.list)),
+	}
+	for i, l := range d.list {
+		l.mu.Lock()
+		n := l.cache.Len()
+		st.LRUSize = l.cache.MaxEntries
+		l.mu.Unlock()
+		st.Resident[i] = n
+		st.Total += n
+	}
+	return st
+}
+
+// VerifOnEvicted registers a callback for each entry leaving a shard (eviction or removal);
+// it runs under the shard lock
+func (d *dispatcher) VerifOnEvicted(fn func(shard int, key string)) {
+	for i, l := range d.list {
+		index := i
+		l.mu.Lock()
+		if fn == nil {
+			l.cache.OnEvicted = nil
+		} else {
+			l.cache.OnEvicted = func(key lru.Key, _ interface{}) {
+				k, _ := key.(string)
+				// copy, the key string aliases a request buffer
+				fn(index, string(append([]byte{}, k...)))
+			}
+		}
+		l.mu.Unlock()
+	}
+}
+
+// VerifShardOf the shard index of key
+func (d *dispatcher) VerifShardOf(key []byte) int {
+	return int(MemHash(key) % d.zoneSize)
+}
+
+// VerifHasStore whether the dispatcher got a store
+func (d *dispatcher) VerifHasStore() bool {
+	return d.store != nil
+}
+
+// VerifEntry snapshot of an entry
+type VerifEntry struct {
+	Exists      bool
+	Status      Status
+	Waiters     int
+	CreatedAt   int64
+	ExpiredAt   int64
+	HasResponse bool
+}
+
+// VerifEntryState looks an entry up without creating it (it does refresh the recency of
+// the key in its shard) and reads it under the entry lock
+func (d *dispatcher) VerifEntryState(key []byte) VerifEntry {
+	l := d.getLRU(key)
+	l.mu.Lock()
+	hc, ok := l.getCache(key)
+	l.mu.Unlock()
+	if !ok {
+		return VerifEntry{}
+	}
+	hc.mu.RLock()
+	defer hc.mu.RUnlock()
+	return VerifEntry{
+		Exists:      true,
+		Status:      hc.status,
+		Waiters:     len(hc.chanList),
+		CreatedAt:   hc.createdAt,
+		ExpiredAt:   hc.expiredAt,
+		HasResponse: hc.response != nil,
+	}
+}
+
+// ---- actions for the real binary, configured through the environment ----
+//
+// VERIF_CLOCK_FILE  file holding an offset in seconds added to the real clock (re-read on every call)
+// VERIF_EVENT_FILE  every hook point reached is appended as "<unix nano> <pid> <name> <n>"
+// VERIF_POINTS      ";" separated actions: name=kill@N (SIGKILL self the N-th time the point is
+//                   reached), name=sleep(ms)@P (sleep ms with probability P percent)
+// VERIF_SEED        seed of the sleep PRNG
+
+type verifAction struct {
+	kind  string
+	n     int64
+	ms    int
+	pct   int
+	count int64
+}
+
+func init() {
+	clockFile := os.Getenv("VERIF_CLOCK_FILE")
+	if clockFile != "" {
+		VerifSetClock(func() int64 {
+			offset := int64(0)
+			buf, err := ioutil.ReadFile(clockFile)
+			if err == nil {
+				offset, _ = strconv.ParseInt(strings.TrimSpace(string(buf)), 10, 64)
+			}
+			return time.Now().Unix() + offset
+		})
+	}
+	eventFile := os.Getenv("VERIF_EVENT_FILE")
+	points := os.Getenv("VERIF_POINTS")
+	if eventFile == "" && points == "" {
+		return
+	}
+	seed, _ := strconv.ParseInt(os.Getenv("VERIF_SEED"), 10, 64)
+	rnd := rand.New(rand.NewSource(seed))
+	mu := sync.Mutex{}
+	actions := make(map[string]*verifAction)
+	counts := make(map[string]int64)
+	for _, item := range strings.Split(points, ";") {
+		arr := strings.SplitN(strings.TrimSpace(item), "=", 2)
+		if len(arr) != 2 {
+			continue
+		}
+		act := &verifAction{}
+		spec := strings.SplitN(arr[1], "@", 2)
+		if len(spec) != 2 {
+			continue
+		}
+		switch {
+		case spec[0] == "kill":
+			act.kind = "kill"
+			act.n, _ = strconv.ParseInt(spec[1], 10, 64)
+		case strings.HasPrefix(spec[0], "sleep("):
+			act.kind = "sleep"
+			act.ms, _ = strconv.Atoi(strings.TrimSuffix(strings.TrimPrefix(spec[0], "sleep("), ")"))
+			act.pct, _ = strconv.Atoi(spec[1])
+		default:
+			continue
+		}
+		actions[arr[0]] = act
+	}
+	var ef *os.File
+	if eventFile != "" {
+		ef, _ = os.OpenFile(eventFile, os.O_CREATE|os.O_APPEND|os.O_WRONLY, 0600)
+	}
+	pid := os.Getpid()
+	VerifSetPointFunc(func(name string) {
+		mu.Lock()
+		counts[name]++
+		n := counts[name]
+		if ef != nil {
+			// one write call per event so that a later self-kill cannot lose it
+			_, _ = ef.WriteString(fmt.Sprintf("%d %d %s %d\n", time.Now().UnixNano(), pid, name, n))
+		}
+		act := actions[name]
+		sleep := 0
+		if act != nil {
+			switch act.kind {
+			case "kill":
+				if n == act.n {
+					if ef != nil {
+						_, _ = ef.WriteString(fmt.Sprintf("%d %d %s %d\n", time.Now().UnixNano(), pid, "selfkill:"+name, n))
+					}
+					_ = syscall.Kill(pid, syscall.SIGKILL)
+					// never continue past the crash point
+					select {}
+				}
+			case "sleep":
+				if rnd.Intn(100) < act.pct {
+					sleep = act.ms
+				}
+			}
+		}
+		mu.Unlock()
+		if sleep > 0 {
+			time.Sleep(time.Duration(sleep) * time.Millisecond)
+		}
+	})
+}
